@@ -102,8 +102,8 @@ impl rustc_driver::Callbacks for Cb {
         if crate_name == "build_script_build" || crate_name.starts_with("build_script") {
             return Compilation::Continue;
         }
-        // proc-macro crates: nothing to analyse post-expansion
-        if tcx.crate_types().iter().any(|t| matches!(t, rustc_session::config::CrateType::ProcMacro)) {
+        // proc-macro crates: nothing to analyse post-expansion, except the literal parser of ark-ff-macros (C20)
+        if crate_name != "ark_ff_macros" && tcx.crate_types().iter().any(|t| matches!(t, rustc_session::config::CrateType::ProcMacro)) {
             return Compilation::Continue;
         }
         let t0 = std::time::Instant::now();
